@@ -172,6 +172,47 @@ CallInputs(st, c)  == IF c.src = "x" THEN {st.x} ELSE st.prev
 SessCall(st, c) == [st EXCEPT !.prev = UNION {Fillna(g, CallMethods(st, c), c.lim) : g \in CallInputs(st, c)}]
 
 \* ---------------------------------------------------------------------------------------------
+\* process sessions: a call has NO MEMORY and the result is ORDINARY DATA.  Between two calls the
+\* caller may make a new input FROM THE RESULT of the first (reindex it onto a longer calendar,
+\* lag it, withdraw an observation in place, slice it, copy it, do arithmetic with it, take its
+\* values into a new object) or build ANOTHER input of the same length / shape.  Whatever the
+\* history, the outcome of a call is the single-call law (Fillna) applied to the CONTENTS of the
+\* object it is handed as they are at that moment, with the arguments of that call - nothing of an
+\* earlier call (its input, its methods, its limit, its result) plays any part, and an object that
+\* descends from an earlier result is a float vector / frame like any other.
+\* The caller's own actions, as functions of the contents (d = [kind, k, i, j]; n0 = the length of
+\* the calendar the session started with: new labels are n0 + 1, n0 + 2, ...):
+\* ---------------------------------------------------------------------------------------------
+NaNs(k) == [i \in 1..k |-> NaN]
+HasLabel(f, t) == \E i \in 1..NRows(f) : f.rows[i] = t
+RowOf(f, t)    == CHOOSE i \in 1..NRows(f) : f.rows[i] = t
+\* reindex onto the labels labs: a label the object does not have gives a row of NaN
+Reindex(f, labs) ==
+    [rows |-> labs,
+     cols |-> [j \in 1..NCols(f) |-> [k \in 1..Len(labs) |-> IF HasLabel(f, labs[k]) THEN f.cols[j][RowOf(f, labs[k])] ELSE NaN]]]
+\* k new rows at the end (reindex onto the own index + k later labels; np.concatenate for an array)
+Extend(f, k, n0) == [rows |-> f.rows \o [i \in 1..k |-> n0 + i], cols |-> [j \in 1..NCols(f) |-> f.cols[j] \o NaNs(k)]]
+\* lag by one position: the labels stay, the first row is NaN, the last value is lost
+Lag(f) == [rows |-> f.rows, cols |-> [j \in 1..NCols(f) |-> [i \in 1..NRows(f) |-> IF i = 1 THEN NaN ELSE f.cols[j][i - 1]]]]
+\* withdraw observations IN PLACE: row i of column j (j = 0: of every column)
+Poke(f, i, j) == [rows |-> f.rows,
+                  cols |-> [c \in 1..NCols(f) |-> [r \in 1..NRows(f) |-> IF r = i /\ (j = 0 \/ c = j) THEN NaN ELSE f.cols[c][r]]]]
+DropFirst(f) == KeepRows(f, LAMBDA i : i > 1)
+DropLast(f)  == KeepRows(f, LAMBDA i : i < NRows(f))
+DeriveKinds  == {"extend", "calendar", "lag", "poke", "head", "tail", "copy", "values", "arith"}
+PositionalKinds == DeriveKinds \ {"calendar"}         \* what can be done to an array (it has no labels)
+Derive(d, f, n0) ==
+    CASE d.kind = "extend"   -> Extend(f, d.k, n0)
+      [] d.kind = "calendar" -> Reindex(f, Idx(n0 + d.k))      \* back onto the full calendar (+ k later days)
+      [] d.kind = "lag"      -> Lag(f)
+      [] d.kind = "poke"     -> Poke(f, d.i, d.j)
+      [] d.kind = "head"     -> DropLast(f)
+      [] d.kind = "tail"     -> DropFirst(f)
+      [] OTHER               -> f         \* copy / values / arith (x * 1): another OBJECT with the same contents
+\* the derivations that make sense on every frame of F (poke needs its cell to exist)
+DeriveOK(d, F) == d.kind = "poke" => \A f \in F : d.i <= NRows(f) /\ d.j <= NCols(f)
+
+\* ---------------------------------------------------------------------------------------------
 \* mechanism: the single forward scan with a carried value and a run counter (what pandas'
 \* pad/backfill kernels do); compared with the law inside TLC only
 \* ---------------------------------------------------------------------------------------------
